@@ -1381,6 +1381,10 @@ class Interp:
             bm = Unknown(f"list method {attr}")
             bm.bound_seq = (b, attr)  # type: ignore[attr-defined]
             return bm
+        if isinstance(b, Unknown) and hasattr(b, "rematch") and attr == "group":
+            bm = Unknown("match.group")
+            bm.bound_group = b.rematch  # type: ignore[attr-defined]
+            return bm
         if isinstance(b, ClassRef):
             r = self.py.resolve_method(b.name, attr)
             if r is not None:
@@ -1671,6 +1675,11 @@ class Interp:
                 return Unknown("super")
             return Unknown(f"call {name}()")
         if isinstance(f, ast.Attribute):
+            # re.match(<const pattern>, <text>) : remembered so that .group() has a language
+            if isinstance(f.value, ast.Name) and f.value.id == "re" and "re" not in env and f.attr in ("match", "fullmatch") and len(args) >= 2 and isinstance(args[0], Const) and isinstance(args[0].value, str):
+                u = Unknown(f"re.{f.attr}()")
+                u.rematch = (f.attr, args[0].value, args[1])  # type: ignore[attr-defined]
+                return u
             # super().__init__ / super().method handled by construct(); here: methods
             if isinstance(f.value, ast.Call) and isinstance(f.value.func, ast.Name) and f.value.func.id == "super":
                 self_obj = env.get("self")
@@ -1736,6 +1745,16 @@ class Interp:
                         s.tail = r[1] if s.tail is None else mk_union([s.tail, r[1]])
                 return Const(None)
             return Unknown(f"list.{meth}")
+        if hasattr(t, "bound_group"):
+            kind, pat, text = t.bound_group
+            if not args or (len(args) == 1 and isinstance(args[0], Const) and args[0].value == 0):
+                sv = StrV(None, f"re.{kind}({pat!r}).group()")
+                sv.op = ("rematch", text, [Const(pat), Const(kind)])  # type: ignore[attr-defined]
+                node = getattr(text, "node", None)
+                if node is not None:
+                    sv.node = node  # type: ignore[attr-defined]
+                return sv
+            return StrV(None, "match group")
         if hasattr(t, "bound_tbl"):
             tb, meth = t.bound_tbl
             if meth == "keys":
